@@ -54,7 +54,21 @@ func (th *thread) schedulable() bool {
 	return th.blocked == nil || th.blocked()
 }
 
+// maxLiveThreads bounds the goroutines alive at once on one path: code that
+// keeps spawning while the spawners wait (an endless fan-out) is cut off the
+// same way as an endless loop.
+const maxLiveThreads = 256
+
 func (in *Interp) spawn(fr *frame, fn Value, args []Value) {
+	live := 0
+	for _, t := range in.threads {
+		if !t.done {
+			live++
+		}
+	}
+	if live > maxLiveThreads {
+		in.abort("budget", fmt.Sprintf("more than %d goroutines alive at once", maxLiveThreads), fr.site())
+	}
 	th := in.newThread()
 	parent := in.cur
 	// happens-before: spawn edge
